@@ -226,6 +226,13 @@ func (p *FloatingIPPlugin) syncPodIP(pod *corev1.Pod) error {
 		return nil
 	}
 	defer p.lockPod(pod.Name, pod.Namespace)()
+	// the pod object may be out of date (listed or notified before the pod was deleted and created again): the ips under
+	// this key belong to the pod which exists now
+	if cur, err := p.PodLister.Pods(pod.Namespace).Get(pod.Name); err == nil && cur.UID != pod.UID {
+		glog.V(4).Infof("skip syncing ip of pod %s/%s uid %s, the pod has been created again", pod.Namespace, pod.Name,
+			pod.UID)
+		return nil
+	}
 	keyObj, err := util.FormatKey(pod)
 	if err != nil {
 		glog.V(5).Infof("sync pod %s/%s ip formatKey with error %v", pod.Namespace, pod.Name, err)
